@@ -8,12 +8,13 @@ stand-in for InputFiles), report.Statistics.collect / as_json.
 What is a stand-in (rule 1 of DESIGN 2.2 - nothing symbolic may reach compiled code):
   * RecordingOutfiles   for cutadapt.files.OutputFiles: same three open_* methods (signatures compared with the real
                         class at import time); the writers it returns append every write() call to one shared log
-  * Rec / Q             for dnaio.SequenceRecord (e2_common.Rec) with a qualities string that carries the read's
-                        expected errors
+  * LazyRec / Q         for dnaio.SequenceRecord (e2_common.Rec contract) with a qualities string that carries the read's
+                        expected errors; text / header / expected errors are rows of small fixed tables selected by
+                        symbolic ints
   * expected_errors     cutadapt.predicates.expected_errors is replaced by a function that returns that value
                         (contract of DESIGN section 5: a non-negative real; 0 for an empty read)
-  * SetMatches1/2       the only modifier in the pipeline: stands for the effect of AdapterCutter on info.matches
-                        (appends a dummy match carrying an adapter name when the 'matched' flag of the mate is set)
+  * MatchSetter1/2      the only modifier in the pipeline: stands for the effect of AdapterCutter on info.matches
+                        (a list holding one dummy match carrying an adapter name when the 'matched' flag of the mate is set)
   * Spy                 wraps every step in pipeline._steps to log which steps were called (delegates to the real step)
 """
 import inspect
@@ -32,24 +33,6 @@ except Exception:  # pragma: no cover
     def is_tracing():
         return False
 
-
-
-# ------------------------------------------------------------------------------------- expected errors stub
-class Q(str):
-    """Quality string of a record; carries the row of EE_VALUES that the expected_errors stub answers with."""
-    ee_index = 0
-
-
-def expected_errors_stub(qualities):
-    """Contract (DESIGN section 5, proved by C14 for the kernel): a non-negative real; the sum over no bases is 0.
-    The value is a concrete float picked from EE_VALUES by a symbolic index, so that all arithmetic and comparisons
-    in the predicates are the native IEEE ones (CrossHair 0.0.110 does not finish with symbolic floats here)."""
-    if len(qualities) == 0:
-        return 0.0
-    return EE_VALUES[qualities.ee_index]
-
-
-_predicates.expected_errors = expected_errors_stub
 
 
 # ------------------------------------------------------------------------------------- recording outputs
@@ -159,26 +142,40 @@ class DummyMatch:
         return read
 
 
-class SetMatches1:
-    """Single-end modifier standing for AdapterCutter: records a match in info.matches iff `matched`."""
+class LazyMatches(list):
+    """info.matches of a read: empty, or one dummy match, decided by a (symbolic) flag that is looked at only when a
+    step looks at the list - so that CrossHair does not fork on the flag for reads that an earlier filter consumes."""
 
-    def __init__(self, matched, name):
-        self.matched = matched
-        self.name = name
+    def __init__(self, flag, name):
+        super().__init__()
+        self._flag = flag
+        self._name = name
+        self._pending = True
 
-    def __call__(self, read, info):
-        if self.matched:
-            info.matches.append(DummyMatch(self.name))
-        return read
+    def _materialise(self):
+        if self._pending:
+            self._pending = False
+            if self._flag:
+                list.append(self, DummyMatch(self._name))
 
+    def __bool__(self):
+        self._materialise()
+        return list.__len__(self) > 0
 
-class SetMatches2:
-    def __init__(self, matched1, name1, matched2, name2):
-        self.m1 = SetMatches1(matched1, name1)
-        self.m2 = SetMatches1(matched2, name2)
+    def __len__(self):
+        self._materialise()
+        return list.__len__(self)
 
-    def __call__(self, read1, read2, info1, info2):
-        return self.m1(read1, info1), self.m2(read2, info2)
+    def __getitem__(self, key):
+        self._materialise()
+        return list.__getitem__(self, key)
+
+    def __iter__(self):
+        self._materialise()
+        return list.__iter__(self)
+
+    def matched(self):
+        return bool(self)
 
 
 # ------------------------------------------------------------------------------------- driving the real loop
@@ -220,6 +217,17 @@ def parse(argv):
     return _PARSED[key]
 
 
+_ADAPTERS = {}
+
+
+def _adapters(key, args):
+    """Real adapter objects of the option set; built once per process (building the k-mer tables is slow, and the
+    adapters are never asked to match here - the AdapterCutter that receives them is not run)."""
+    if key not in _ADAPTERS:
+        _ADAPTERS[key] = _cli.adapters_from_args(args)
+    return _ADAPTERS[key]
+
+
 class Built:
     """One freshly built pipeline for an option set."""
 
@@ -230,7 +238,7 @@ class Built:
         self.args = args
         self.paired = _cli.determine_paired(args)
         _cli.check_arguments(args, self.paired)
-        adapters, adapters2 = _cli.adapters_from_args(args)
+        adapters, adapters2 = _adapters(self.argv, args)
         self.names1 = [a.name for a in adapters]
         self.names2 = [a.name for a in adapters2]
         self.outfiles = RecordingOutfiles()
@@ -270,51 +278,126 @@ def admissible(argv):
 # Read texts: the filters look only at the length and the number of N/n.  One symbolic int selects a row
 # (concrete text, so that len()/count() are native); lengths 0..3, every N count 0..len, both cases of N.
 TEXTS = ["", "A", "n", "AC", "NC", "nN", "ACG", "ANG", "NCn", "NnN"]
-TEXT_FEATURES = [(len(t), t.lower().count("n")) for t in TEXTS]
-assert sorted(set(TEXT_FEATURES)) == sorted((l, k) for l in range(4) for k in range(l + 1))
+TEXT_ROWS = [(t, len(t), t.lower().count("n")) for t in TEXTS]
+assert sorted(set(r[1:] for r in TEXT_ROWS)) == sorted((l, k) for l in range(4) for k in range(l + 1))
 
 # Read names: nothing / passes the CASAVA filter / fails it / ':Y:' only in places that are not the is_filtered field
-NAMES = ["r", "r 1:N:0:ACGT", "r 1:Y:0:ACGT", "r:Y: 2:N:18:ACGT", "r 2:N:0:A:Y:"]
-NAME_IS_Y = [False, False, True, False, False]
-
+NAME_ROWS = [("r", False), ("r 1:N:0:ACGT", False), ("r 1:Y:0:ACGT", True), ("r:Y: 2:N:18:ACGT", False), ("r 2:N:0:A:Y:", False)]
 
 # Expected errors of a non-empty read (row chosen by a symbolic int); with lengths 1..3 these give error rates
 # below, at and above 0.5 and expected errors below, at and above 1.0
 EE_VALUES = [0.0, 1.0, 1.5, 2.5]
 
 
-class LazyRec(Rec):
-    """Rec whose text, header and qualities are looked up in the tables above only when somebody reads them, so that
-    CrossHair enumerates a symbolic row number only on the paths on which a step really looks at that feature."""
+class Cell:
+    """Row of a table selected by a (symbolic) int; looked up on first use only, then remembered.  CrossHair
+    enumerates the symbolic row number at the lookup, i.e. only on paths on which somebody needs the feature."""
 
-    def __init__(self, text_index, name_index, ee_index):
-        self._t = text_index
-        self._c = name_index
-        self._e = ee_index
+    def __init__(self, table, index):
+        self.table = table
+        self.index = index
+        self.pending = True
+        self.value = None
+
+    def get(self):
+        if self.pending:
+            self.value = self.table[self.index]
+            self.pending = False
+        return self.value
+
+
+FULL_TABLES = {"t": TEXT_ROWS, "c": NAME_ROWS, "e": EE_VALUES}
+
+
+class Features:
+    """The filter-relevant features of one read, shared by the record given to cutadapt and by the reference.
+    tables: {"t": rows of TEXT_ROWS, "c": rows of NAME_ROWS, "e": rows of EE_VALUES} (possibly a selection)."""
+
+    def __init__(self, text_index, name_index, ee_index, matched, adapter_name, tables=FULL_TABLES):
+        self.text_cell = Cell(tables["t"], text_index)
+        self.name_cell = Cell(tables["c"], name_index)
+        self.ee_cell = Cell(tables["e"], ee_index)
+        self.matches = LazyMatches(matched, adapter_name)
+        self.adapter_name = adapter_name
+
+    text = property(lambda self: self.text_cell.get()[0])
+    length = property(lambda self: self.text_cell.get()[1])
+    n_count = property(lambda self: self.text_cell.get()[2])
+    name = property(lambda self: self.name_cell.get()[0])
+    is_y = property(lambda self: self.name_cell.get()[1])
+    matched = property(lambda self: self.matches.matched())
+
+    @property
+    def ee(self):
+        return self.ee_cell.get() if self.length > 0 else 0.0
+
+
+class Q(str):
+    """Quality string of a record; carries the features so that the expected_errors stub can answer."""
+    features = None
+
+
+def expected_errors_stub(qualities):
+    """Contract (DESIGN section 5, proved by C14 for the kernel): a non-negative real; the sum over no bases is 0.
+    The value is a concrete float picked from EE_VALUES by a symbolic index, so that all arithmetic and comparisons
+    in the predicates are the native IEEE ones (CrossHair 0.0.110 does not finish with symbolic floats here)."""
+    if len(qualities) == 0:
+        return 0.0
+    return qualities.features.ee_cell.get()
+
+
+_predicates.expected_errors = expected_errors_stub
+
+
+class LazyRec(Rec):
+    """Rec whose text, header and qualities are looked up only when somebody reads them."""
+
+    def __init__(self, features):
+        self.features = features
         self._q = None
 
     @property
     def sequence(self):
-        return TEXTS[self._t]
+        return self.features.text
 
     @property
     def name(self):
-        return NAMES[self._c]
+        return self.features.name
 
     @property
     def qualities(self):
         if self._q is None:
-            q = Q("I" * len(TEXTS[self._t]))
-            q.ee_index = self._e
+            q = Q("I" * self.features.length)
+            q.features = self.features
             self._q = q
         return self._q
+
+    def __len__(self):
+        return self.features.length
 
     def __getitem__(self, key):
         return Rec(self.name, self.sequence, self.qualities)[key]
 
 
-def make_read(text_index, name_index, ee_index):
-    return LazyRec(text_index, name_index, ee_index)
+class MatchSetter1:
+    """Single-end modifier standing for AdapterCutter: installs the (lazy) match list of the read."""
+
+    def __init__(self, features):
+        self.features = features
+
+    def __call__(self, read, info):
+        info.matches = self.features.matches
+        return read
+
+
+class MatchSetter2:
+    def __init__(self, features1, features2):
+        self.f1, self.f2 = features1, features2
+
+    def __call__(self, read1, read2, info1, info2):
+        info1.matches = self.f1.matches
+        info2.matches = self.f2.matches
+        return read1, read2
 
 
 # ------------------------------------------------------------------------------------- catalogue of option sets
@@ -460,3 +543,64 @@ def combine(mode, on1, on2, a1, a2):
     if mode == "both":
         return a1 and a2
     return a1
+
+
+_TABLES = {}
+
+
+def tables_for(spec):
+    """Rows of the feature tables that a condition on this option set enumerates.  A feature that no enabled filter
+    looks at gets a single row; paired-end sets use a selection (the number of paths is the product over both mates):
+      text    no --max-n: one text per length 0..3; --max-n single-end: all ten (length, N count) rows;
+              --max-n paired: (0,0) (1,0) (2,1) (2,2) (3,0) (3,2)
+      header  --discard-casava single-end: all five; paired: no comment / passes / fails
+      expected errors  --max-ee/--max-aer single-end: 0, 1, 1.5, 2.5; paired: 1, 1.5, 2.5"""
+    key = id(spec)
+    if key not in _TABLES:
+        if spec.max_n is None:
+            t = [0, 1, 3, 6]
+        elif spec.paired:
+            t = [0, 1, 4, 5, 6, 8]
+        else:
+            t = list(range(len(TEXT_ROWS)))
+        if not spec.casava:
+            c = [0]
+        elif spec.paired:
+            c = [0, 1, 2]
+        else:
+            c = list(range(len(NAME_ROWS)))
+        if spec.max_ee is None and spec.max_aer is None:
+            e = [0]
+        elif spec.paired:
+            e = [1, 2, 3]
+        else:
+            e = [0, 1, 2, 3]
+        _TABLES[key] = {"t": [TEXT_ROWS[i] for i in t], "c": [NAME_ROWS[i] for i in c], "e": [EE_VALUES[i] for i in e]}
+    return _TABLES[key]
+
+
+class MatchSetter:
+    """The only modifier of the pipelines driven here (single-end or paired-end call convention): stands for
+    AdapterCutter's effect on info.matches by installing the (lazy) match list that belongs to the record."""
+
+    def __call__(self, *args):
+        if len(args) == 2:
+            read, info = args
+            info.matches = read.features.matches
+            return read
+        read1, read2, info1, info2 = args
+        info1.matches = read1.features.matches
+        info2.matches = read2.features.matches
+        return read1, read2
+
+
+def writer_kind(spec, writer):
+    """'final' for the files that hold the processed reads (-o/-p, standard output, every demultiplexed file including
+    the one for reads without adapter), else the name of the redirecting option.  Decided by the file name only."""
+    first = writer.paths[0]
+    for stem in ("too-short", "too-long"):
+        if first.startswith(stem + "."):
+            return stem
+    if first.startswith("untrimmed.") and spec.out in ("files", "interleaved", "stdout"):
+        return "untrimmed"
+    return "final"
